@@ -144,13 +144,19 @@ func runC07(c *Ctx, r *Report, tier string) {
 	}
 	r.Check(seenMaps["lookup.longNames"] == 1 && seenMaps["lookup.shortNames"] == 1, "TABLES", c.fname(fl), "one writer per option table", c.pos(fl.Pos()), "exactly one MapUpdate each", fmt.Sprintf("longNames writers=%d shortNames writers=%d", seenMaps["lookup.longNames"], seenMaps["lookup.shortNames"]))
 	// makeLookup: fillLookup receivers
-	for _, in := range c.instrs(ml, c.isCallTo("(*Command).fillLookup")) {
-		recv := c.term(in.(*ssa.Call).Call.Args[0])
-		ok := recv == "P0" || strings.HasPrefix(recv, "idx(phi{append(phi↺, slice(new:[1]*Command")
-		r.Check(ok, "TABLES", c.fname(ml), "fillLookup receiver", c.ipos(in), "the command itself or an element of its parent chain", "lookup filled from "+trunc(recv, 100))
+	{
+		af := c.ancestorFill(ml)
+		for _, pr := range af.problems {
+			r.Fail("TABLES", c.fname(ml), pr.what, c.ipos(pr.at), pr.detail)
+		}
+		for _, in := range []ssa.Instruction{af.self, af.anc} {
+			if in != nil {
+				r.OK("TABLES", c.fname(ml), "fillLookup receiver", c.ipos(in), "the command itself or an element of its parent chain")
+			}
+		}
 	}
 	// parents chain: appended values are parent.(*Command) results
-	for _, b := range ml.Blocks {
+	for _, b := range c.blocks(ml) {
 		for _, in := range b.Instrs {
 			if call, ok := in.(*ssa.Call); ok && c.calleeName(call.Common()) == "append" {
 				for _, e := range sliceLitElems(call.Call.Args[1]) {
@@ -167,7 +173,7 @@ func runC07(c *Ctx, r *Report, tier string) {
 	// namespace walk ends only at the root
 	if ln := c.mustFn(r, "(*Option).LongNameWithNamespace"); ln != nil {
 		nW := 0
-		for _, l := range loopsOf(ln) {
+		for _, l := range c.loopsDeep(ln) {
 			iff, ok := l.Header.Instrs[len(l.Header.Instrs)-1].(*ssa.If)
 			if !ok {
 				continue
